@@ -3,6 +3,8 @@ import random
 import warnings
 from fractions import Fraction
 
+from props._util import same_num, same_dict
+
 ID = 'C03'
 LEVEL = 'proof'
 CONTRACTS = ['contracts.explainer']
@@ -127,11 +129,10 @@ def BOUNDED(tier, seed):
                                 marg, mod = step(marg, l0, nexp), step(mod, loss(y, pred), nexp)
                                 nexp += 1
                                 off = 1 if bigger else 0
-                                got_i = {k: Fraction(v) for k, v in ex.importance_values.items()}
-                                got_v = {k: Fraction(v) for k, v in ex.variances.items()}
-                                if got_i != imp or got_v != var or abs(float(ex.marginal_loss) - float(marg + off)) > 1e-9 \
+                                got_i, got_v = dict(ex.importance_values), dict(ex.variances)
+                                if not same_dict(got_i, imp) or not same_dict(got_v, var) or abs(float(ex.marginal_loss) - float(marg + off)) > 1e-9 \
                                         or abs(float(ex.model_loss) - float(mod + off)) > 1e-9 \
-                                        or {k: Fraction(v) for k, v in ex.marginal_prediction.items()} != {k: Fraction(v) for k, v in norm.items()}:
+                                        or not same_dict(dict(ex.marginal_prediction), dict(norm)):
                                     ok = False
                             if not ok:
                                 fails.append({'key': 'chain_reference', 'summary': f'IncrementalSage differs from the independent chain reference at '
